@@ -720,7 +720,7 @@ class XsdAtomicBuiltin(XsdAtomic):
         if validation == 'skip':
             try:
                 return self.to_python(obj)
-            except (ValueError, TypeError, DecimalException):
+            except (ValueError, TypeError, DecimalException, OverflowError):
                 return raw_encode_value(obj)
 
         if self.patterns is not None:
@@ -731,7 +731,7 @@ class XsdAtomicBuiltin(XsdAtomic):
 
         try:
             result: DecodedValueType = self.to_python(obj)
-        except (ValueError, DecimalException) as err:
+        except (ValueError, DecimalException, OverflowError) as err:
             context.decode_error(validation, self, obj, self.to_python, err)
             return None
         except TypeError:
